@@ -61,9 +61,11 @@ type cdpSnap struct {
 
 func modLabel(name string) string { return "mod:" + name }
 
-func (u *cdpU) snap() *cdpSnap {
+func (u *cdpU) snap() *cdpSnap { return u.snapAt(u.c.Ctx()) }
+
+// snapAt reads the snapshot from the given context (e.g. the committed state).
+func (u *cdpU) snapAt(ctx sdk.Context) *cdpSnap {
 	c := u.c
-	ctx := c.Ctx()
 	s := &cdpSnap{Height: c.Header.Height,
 		Vaults: map[uint64]vaulttypes.Vault{}, Stable: map[uint64]vaulttypes.StableMintVault{}, Mappings: map[appAsset]vaulttypes.AppExtendedPairVaultMappingData{},
 		LockedV1: map[uint64]liqtypes.LockedVault{}, LockedV2: map[uint64]liqV2types.LockedVault{}, DutchV1: map[uint64]auctiontypes.DutchAuction{},
